@@ -353,7 +353,7 @@ func rejects(outs []rig.Out) []rig.Out {
 
 func main() {
 	c := vk.Init("C06")
-	c.Rule(fmt.Sprintf("histories over an alphabet of %d symbols (3 good Logons at mid/min/max interval, 7 refused or damaged Logons, Heartbeat, TestRequest, 2 ResendRequests, Logout, application and unknown types, local Send, local Logout), both roles: EXHAUSTIVE over all histories up to length 3 (quick) / 4 (thorough), plus seeded random histories up to length 14 with varied heartbeat limits (every fifth: Min = Max), plus, for limits that admit intervals no timer can run with (0, negative, beyond time.Duration), Logons carrying such intervals: the outcome must be ONE decision (Logon reply first + logged on + one event + no Reject, or one Reject + not logged on + no event) and the next TestRequest is served accordingly; plus real-time histories (N=1) in which the timers of an ended logon expire after a Logout before the next inbound message. Oracle: reference logon automaton transcribed from the statement, run against IsLogged / EventLogon / messages on Outgoing() after every step. distinct = distinct (role, limits, symbol sequence); non-trivial = the history contains a Logon decision", len(alpha)))
+	c.Rule(fmt.Sprintf("histories over an alphabet of %d symbols (3 good Logons at mid/min/max interval, 7 refused or damaged Logons, Heartbeat, TestRequest, 2 ResendRequests, Logout, application and unknown types, local Send, local Logout), both roles: EXHAUSTIVE over all histories up to length 3 (quick) / 4 (thorough), plus seeded random histories up to length 14 with varied heartbeat limits (every fifth: Min = Max), plus, for limits that admit intervals no timer can run with (0, negative, beyond time.Duration), Logons carrying such intervals: the outcome must be ONE decision (Logon reply first + logged on + one event + no Reject, or one Reject + not logged on + no event) and the next TestRequest is served accordingly; plus initiating sessions whose acceptor answers with another interval, logged out by the peer and logged on again by LogonRequest: the second Logon carries the configured interval, method and credentials like the first; plus real-time histories (N=1) in which the timers of an ended logon expire after a Logout before the next inbound message. Oracle: reference logon automaton transcribed from the statement, run against IsLogged / EventLogon / messages on Outgoing() after every step. distinct = distinct (role, limits, symbol sequence); non-trivial = the history contains a Logon decision", len(alpha)))
 	c.Assume("step driver: unbuffered handler, barrier handlers registered after Session.Run, so outputs are attributed to steps exactly; heartbeat intervals >= 5 s and histories finish in milliseconds, so no timer fires inside a history (histories slower than 4 s are inconclusive)")
 	maxLen := c.Pick(3, 4)
 	nRandom := c.Pick(1500, 40000)
@@ -486,5 +486,6 @@ func main() {
 	}
 	wg.Wait()
 	unrunnableIntervals(c)
+	initiatorRelogon(c)
 	c.Finish()
 }
